@@ -537,6 +537,102 @@ example : XrefTable.parseTable "0 1 0000000000 65535 x \ntrailer".toUTF8.toList.
 example : XrefTable.parseTable "0 2 0000000000 65535 f \ntrailer".toUTF8.toList.toArray 100 0 = .err := by decide +kernel
 example : XrefTable.parseTable "0 1 0000000000 65535 f \n".toUTF8.toList.toArray 100 0 = .err := by decide +kernel
 
+/-! ### Non-vacuity (file level)
+
+`exFile`: `%PDF-1.4`, a first section at offset 9 (objects 0–2) and an update at offset 98 that moves
+object 1 and frees object 2, both written by the executable writer (table) and the C03 printer (trailer
+dictionary), `/Prev 9` in the newer trailer, `startxref 98`.  Every hypothesis of `table_file_newest_wins`
+holds for it, and the model computes the merged table from the bytes. -/
+
+section FileExample
+open XrefTableSpec XrefTable PdfLex Offsets
+
+def exEnv : Env Unit :=
+  { parseReal := fun _ => some (), resolveLen := fun _ _ => .err, allowMissingEndobj := false, decrypt := none, fileOffset := 0 }
+
+def exBase : Parsers Unit (Dict Unit) where
+  xrefAt := fun _ => .err
+  sizeOf := fun _ => .err
+  prevOf := fun _ => none
+  objAt := fun _ _ => .err
+  streamEnd := fun _ => .err
+  asLen := fun _ => .err
+  stmHead := fun _ => .err
+  decode := fun _ _ => .err
+  parseMember := fun _ _ => .err
+  scanItems := fun _ => []
+
+def exRev0 : Rev (Dict Unit) := ⟨9, [⟨0, [.free 0 65535, .raw 9 0, .raw 20 0]⟩], [(keySize, .int 3)]⟩
+def exRev1 : Rev (Dict Unit) := ⟨98, [⟨1, [.raw 50 0]⟩, ⟨2, [.free 0 1]⟩], [(keySize, .int 3), (keyPrev, .int 9)]⟩
+
+def exTable (r : Rev (Dict Unit)) : List UInt8 := (writeTable r.subs []).1
+def exDictText (r : Rev (Dict Unit)) : List UInt8 := (PdfSpec.render (fun _ => [48, 46]) (Prim.dict r.trailer) []).1
+def exSection (r : Rev (Dict Unit)) : List UInt8 :=
+  [] ++ XrefTableSpec.kwXref ++ [10] ++ exTable r ++ XrefTableSpec.kwTrailer ++ [10] ++ exDictText r
+
+def exTail : List UInt8 := "\nstartxref\n98\n%%EOF".toUTF8.toList
+def exFile : List UInt8 := "%PDF-1.4\n".toUTF8.toList ++ exSection exRev0 ++ [10] ++ exSection exRev1 ++ exTail
+
+theorem exSubOK (r : Rev (Dict Unit)) (h : r = exRev0 ∨ r = exRev1) : ∀ s ∈ r.subs, SubOK s := by
+  intro s hs
+  rcases h with rfl | rfl <;>
+    (simp only [exRev0, exRev1, List.mem_cons, List.not_mem_nil, or_false] at hs) <;>
+    (try rcases hs with rfl | rfl) <;> (try subst hs) <;>
+    simp [SubOK, Writable, XrefTableSpec.u32Max, XrefTableSpec.u64Max]
+
+theorem exSectionText (r : Rev (Dict Unit)) (h : r = exRev0 ∨ r = exRev1) :
+    SectionText r.subs (exDictText r) (exSection r) :=
+  ⟨[], [10], exTable r, [10], rfl, PdfSyntax.Gap.nil,
+    ⟨PdfSyntax.Gap.ws 10 [] (by decide) PdfSyntax.Gap.nil, by simp⟩,
+    writeTable_conformant r.subs (exSubOK r h) [], PdfSyntax.Gap.ws 10 [] (by decide) PdfSyntax.Gap.nil⟩
+
+theorem exSpells (r : Rev (Dict Unit)) (h : r = exRev0 ∨ r = exRev1) :
+    PdfSyntax.Spells exEnv.parseReal (Prim.dict r.trailer) (exDictText r) := by
+  apply PdfSpec.render_spells
+  rcases h with rfl | rfl <;> simp [exRev0, exRev1, PdfSpec.Renderable, PdfSpec.RenderableE]
+
+theorem exClassic0 : ClassicAt exEnv exFile 0 exRev0 := by
+  refine ⟨exDictText exRev0, exSection exRev0, [10] ++ exSection exRev1 ++ exTail, by decide +kernel, by decide +kernel,
+    exSectionText _ (Or.inl rfl), exSpells _ (Or.inl rfl), ?_, by decide, ?_⟩
+  · simp [exRev0, PdfSyntax.WF, PdfSyntax.WFE, PdfSyntax.keysOf, keySize]; decide
+  · exact Or.inr ⟨(89, 93), by decide +kernel, by decide +kernel, by decide +kernel,
+      fun hi => absurd hi (by decide +kernel)⟩
+
+theorem exClassic1 : ClassicAt exEnv exFile 0 exRev1 := by
+  refine ⟨exDictText exRev1, exSection exRev1, exTail, by decide +kernel, by decide +kernel,
+    exSectionText _ (Or.inr rfl), exSpells _ (Or.inr rfl), ?_, by decide, ?_⟩
+  · simp [exRev1, PdfSyntax.WF, PdfSyntax.WFE, PdfSyntax.keysOf, keySize, keyPrev]; decide
+  · exact Or.inr ⟨(80, 89), by decide +kernel, by decide +kernel, by decide +kernel,
+      fun hi => absurd hi (by decide +kernel)⟩
+
+theorem exWF : ∀ id, id < 3 → WF (historyOf [exRev1, exRev0]) id := by
+  intro id hid
+  have : id = 0 ∨ id = 1 ∨ id = 2 := by omega
+  rcases this with rfl | rfl | rfl <;>
+    (refine ⟨by unfold pairsOK; decide, ?_⟩
+     simp [historyOf, exRev0, exRev1, mentionsOf, mentions, allPairs, secPairs, subPairs, pairsFrom, keeps, gen])
+
+/-- all hypotheses of `table_file_newest_wins` hold for the two-revision file `exFile`:
+    `%PDF-1.4`, a first section (objects 0–2), an update that moves object 1 and frees object 2 -/
+theorem exFile_newest_wins (id : Nat) (hid : id < 3) :
+    ∃ t, readXrefTableAndTrailer exEnv (fun _ _ => .err) exBase 5 exFile 0 = .ok (t, exRev1.trailer) ∧
+      t.length = 3 + 1 ∧ t[id]? = some ((latest (historyOf [exRev1, exRev0]) id).getD .invalid) :=
+  table_file_newest_wins exEnv rfl (fun _ _ => .err) exBase exFile 0 5 (by decide +kernel) exRev1 [exRev0] 3
+    (by decide +kernel) (by decide +kernel)
+    (by intro r hr; simp only [List.mem_cons, List.not_mem_nil, or_false] at hr
+        rcases hr with rfl | rfl
+        · exact exClassic1
+        · exact exClassic0)
+    rfl (by decide) ⟨rfl, rfl⟩ (by simp) (by simp) id hid (exWF id hid)
+
+/-- and the model computes the table from the bytes: object 1 moved, object 2 freed, trailer of the update -/
+example : (match readXrefTableAndTrailer exEnv (fun _ _ => .err) exBase 5 exFile 0 with
+    | .ok (t, _) => t == [.free 0 65535, .raw 50 0, .free 0 1, .free 0 65535]
+    | _ => false) = true := by decide +kernel
+
+
+end FileExample
+
 /-! ## The rule before the repair (D11) did not satisfy the property
 
 `XRef::Stream { .. } | XRef::Invalid => true` let *any* older section overwrite a compressed entry.
